@@ -31,6 +31,9 @@ type c10Params struct {
 	Followers []c10Follower `json:"followers,omitempty"` // leader-assigned
 	Static    bool        `json:"static,omitempty"`
 	Dynamic   [][2]int    `json:"dynamic,omitempty"`
+	// DynamicWindow: the first numbering is published exactly while GetInfo() is between its nil check and its
+	// channel receive (the point where it logs "waiting first request")
+	DynamicWindow [2]int `json:"dynamic_window,omitempty"`
 }
 
 type c10Action struct {
@@ -43,6 +46,7 @@ type c10Follower struct {
 	JoinAt       int    `json:"join_at"`       // seconds after start
 	PingFailFrom int    `json:"ping_fail_from"` // seconds after start from which pings fail (0 = never)
 	RebalErrors  int    `json:"rebal_errors"`   // the first n Rebalance calls return an error
+	RestartAt    int    `json:"restart_at,omitempty"` // seconds after start at which the follower's process is replaced: the old connection is dead from then on, the new process registers under the same name
 }
 
 type c10Inst struct {
@@ -91,6 +95,7 @@ func c10RunCouchbase(sc drv.Scenario, p *c10Params) drv.Result {
 	var hmu sync.Mutex
 	connOf := map[int]int{} // instance -> connection id of its KV connection (learned from its register write)
 	holdGet := map[int]chan struct{}{}
+	stalled := map[int]bool{} // instances whose heartbeat writes are refused (stalled process / KV time-outs)
 	delayIdxWrite := map[int]time.Duration{}
 	indexKey := "_connector:cbgo:g1:instance:all"
 	env.Sim.Hook = func(r *cbsim.Req) *cbsim.Action {
@@ -101,6 +106,13 @@ func c10RunCouchbase(sc drv.Scenario, p *c10Params) drv.Result {
 				if connOf[i] == r.ConnID && ch != nil {
 					env.Log.Add(evlog.Rec{K: "sim.holdget", VB: -1, A: uint64(i)})
 					return &cbsim.Action{Hold: ch, Async: true}
+				}
+			}
+		}
+		if r.Op != cbsim.OpGet && string(r.Key) != indexKey && strings.Contains(string(r.Key), ":instance:") {
+			for i, st := range stalled {
+				if st && connOf[i] == r.ConnID {
+					return &cbsim.Action{HasStatus: true, Status: 0x86}
 				}
 			}
 		}
@@ -275,6 +287,20 @@ func c10RunCouchbase(sc drv.Scenario, p *c10Params) drv.Result {
 			delayIdxWrite[surv] = 60 * time.Millisecond
 			hmu.Unlock()
 			leave(a.I)
+		case "stall":
+			// the instance's heartbeat document is not refreshed for longer than interval + tolerance while the others keep
+			// monitoring (they drop it from the index); then its heartbeats work again. The library's answer is fail-stop:
+			// the dropped instance panics ("cant find self in cluster") so that its supervisor restarts it as a fresh instance.
+			drv.NoteFlush("stall inst%d", a.I)
+			hmu.Lock()
+			stalled[a.I] = true
+			hmu.Unlock()
+			time.Sleep(520 * time.Millisecond)
+			hmu.Lock()
+			stalled[a.I] = false
+			hmu.Unlock()
+			time.Sleep(400 * time.Millisecond)
+			// still here: the instance did not stop. It is alive and heart-beating, so it belongs to the group
 		case "quiesce":
 			if r := quiesce(si); r != nil {
 				return *r
@@ -339,6 +365,7 @@ type fakeFollower struct {
 	ok       [][2]int
 	pings    int
 	closed   bool
+	dead     bool
 }
 
 func (f *fakeFollower) Close() error { f.mu.Lock(); f.closed = true; f.mu.Unlock(); return nil }
@@ -346,6 +373,9 @@ func (f *fakeFollower) Ping() error {
 	f.mu.Lock()
 	defer f.mu.Unlock()
 	f.pings++
+	if f.dead {
+		return errors.New("connection is shut down")
+	}
 	if f.failFrom > 0 && time.Since(f.start) > time.Duration(f.failFrom)*time.Second {
 		return errors.New("scripted ping failure")
 	}
@@ -357,6 +387,9 @@ func (f *fakeFollower) Reconnect() error  { return nil }
 func (f *fakeFollower) Rebalance(m, t int) error {
 	f.mu.Lock()
 	defer f.mu.Unlock()
+	if f.dead {
+		return errors.New("connection is shut down")
+	}
 	f.got = append(f.got, [2]int{m, t})
 	if f.rebalErr > 0 {
 		f.rebalErr--
@@ -395,7 +428,13 @@ func c10RunLeader(sc drv.Scenario, p *c10Params) drv.Result {
 			maxT = f.PingFailFrom
 		}
 	}
+	for _, f := range p.Followers {
+		if f.RestartAt > maxT {
+			maxT = f.RestartAt
+		}
+	}
 	added := map[string]bool{}
+	restarted := map[string]bool{}
 	total := maxT + 23 // two further heartbeat + monitor rounds (hard-coded 5 s) after the last change, plus retries
 	for time.Since(start) < time.Duration(total)*time.Second {
 		for _, f := range p.Followers {
@@ -404,6 +443,17 @@ func c10RunLeader(sc drv.Scenario, p *c10Params) drv.Result {
 				fol[f.Name] = ff
 				sd.Add(servicediscovery.NewService(ff, f.Name, time.Now().UnixNano()))
 				added[f.Name] = true
+			}
+			if f.RestartAt > 0 && added[f.Name] && !restarted[f.Name] && time.Since(start) >= time.Duration(f.RestartAt)*time.Second {
+				// the follower's process is replaced: the leader's connection to the old one is dead, the new one registers under the same name
+				old := fol[f.Name]
+				old.mu.Lock()
+				old.dead = true
+				old.mu.Unlock()
+				ff := &fakeFollower{name: f.Name, start: start}
+				fol[f.Name] = ff
+				sd.Add(servicediscovery.NewService(ff, f.Name, time.Now().UnixNano()))
+				restarted[f.Name] = true
 			}
 		}
 		time.Sleep(50 * time.Millisecond)
@@ -420,7 +470,13 @@ func c10RunLeader(sc drv.Scenario, p *c10Params) drv.Result {
 			live = append(live, f)
 		}
 	}
-	sort.SliceStable(live, func(i, j int) bool { return live[i].JoinAt < live[j].JoinAt })
+	eff := func(f c10Follower) int { // the join time the leader knows: that of the latest registration
+		if f.RestartAt > 0 {
+			return f.RestartAt
+		}
+		return f.JoinAt
+	}
+	sort.SliceStable(live, func(i, j int) bool { return eff(live[i]) < eff(live[j]) })
 	size := len(live) + 1
 	mu.Lock()
 	a := append([]membership.Model{}, ann...)
@@ -464,6 +520,11 @@ func c10RunLeader(sc drv.Scenario, p *c10Params) drv.Result {
 		}
 		nerr += f.RebalErrors
 	}
+	for _, f := range p.Followers {
+		if f.RestartAt > 0 {
+			nfail++
+		}
+	}
 	res.Nontrivial = nfail > 0 || nerr > 0
 	res.TraceHash = drv.Hash("leader", fmt.Sprint(p.Followers))
 	res.Events["leader_announcements"] = len(a)
@@ -488,6 +549,48 @@ func c10RunSmall(sc drv.Scenario, p *c10Params) drv.Result {
 		}
 		res.SubEvals, res.SubDistinct, res.TraceHash = res.Checks, res.Checks, "static"
 		res.Sample = map[string]any{"kind": "static", "pairs": res.Checks}
+		return res
+	}
+	if p.DynamicWindow[1] != 0 {
+		// the first PUT /membership/info is handled exactly between GetInfo()'s nil check and its channel receive:
+		// the library logs "waiting first request" there, and the log hook publishes the numbering as api.info does
+		bus := EventBus.New()
+		dm := membership.NewDynamicMembership(bus)
+		want := membership.Model{MemberNumber: p.DynamicWindow[0], TotalMembers: p.DynamicWindow[1]}
+		fired := false
+		hx.LogHook = func(line string) {
+			if !fired && strings.Contains(line, "dynamic membership waiting first request") {
+				fired = true
+				m := want
+				bus.Publish(helpers.MembershipChangedBusEventName, &m)
+			}
+		}
+		defer func() { hx.LogHook = nil }()
+		got := make(chan *membership.Model, 1)
+		go func() { got <- dm.GetInfo() }()
+		res.Checks = 1
+		res.TraceHash = drv.Hash("dynamic-window", fmt.Sprint(p.DynamicWindow))
+		res.Sample = map[string]any{"kind": "dynamic-window", "first_info": p.DynamicWindow, "published_inside_window": true}
+		select {
+		case g := <-got:
+			if g == nil || *g != want {
+				return drv.Result{Verdict: drv.Violated, Clause: "dynamic", FindingKey: "C10/dynamic/first-info", Detail: fmt.Sprintf("first numbering %v published while GetInfo() was about to wait; GetInfo() returned %v", want, g)}
+			}
+		case <-time.After(5 * time.Second):
+			if !fired {
+				return drv.Result{Verdict: drv.Inconclusive, Detail: "GetInfo() never logged that it waits: the window was not reached"}
+			}
+			// a later, different numbering does not wake it up either?
+			m2 := membership.Model{MemberNumber: 1, TotalMembers: want.TotalMembers + 1}
+			bus.Publish(helpers.MembershipChangedBusEventName, &m2)
+			woke := false
+			select {
+			case <-got:
+				woke = true
+			case <-time.After(time.Second):
+			}
+			return drv.Result{Verdict: drv.Violated, Clause: "dynamic", FindingKey: "C10/dynamic/first-info-lost", Detail: fmt.Sprintf("the first numbering %v was published while GetInfo() was between its check and its wait: GetInfo() still blocked 5 s later (the instance never opens its stream); a later numbering woke it: %v", want, woke)}
+		}
 		return res
 	}
 	bus := EventBus.New()
@@ -551,6 +654,12 @@ func init() {
 					victim := k - 1
 					p.Actions = append(p.Actions, c10Action{Op: "replace", I: victim}, c10Action{Op: "quiesce"})
 				case 2: // CAS race between survivors
+					if i%6 == 2 && k >= 2 {
+						// a member whose heartbeats lapse is dropped by the others and then resumes
+						p.Hold = "stall"
+						p.Actions = append(p.Actions, c10Action{Op: "stall", I: alive[0]}, c10Action{Op: "quiesce"})
+						break
+					}
 					p.Hold = "cas"
 					p.Actions = append(p.Actions, c10Action{Op: "casrace", I: alive[0]}, c10Action{Op: "quiesce"})
 				}
@@ -568,6 +677,16 @@ func init() {
 						f.RebalErrors = 1 + rng.Intn(2)
 					}
 					p.Followers = append(p.Followers, f)
+				}
+				if i%3 == 1 {
+					// a follower's process is replaced and registers again under the same name while the leader still holds the
+					// (now dead) first registration
+					for j := range p.Followers {
+						if p.Followers[j].PingFailFrom == 0 {
+							p.Followers[j].RestartAt = 3 + rng.Intn(3)
+							break
+						}
+					}
 				}
 				if i%3 == 2 {
 					// a late joiner whose first assignment push fails: the numbering must still reach it
@@ -588,6 +707,10 @@ func init() {
 				}
 				out = append(out, drv.Scenario{Kind: "dynamic", Seed: seed, Params: mustJSON(c10Params{Dynamic: seq}), TimeoutS: 60})
 			}
+			for i := 0; i < 3; i++ {
+				t := 2 + rng.Intn(6)
+				out = append(out, drv.Scenario{Kind: "dynamic-window", Seed: seed, Params: mustJSON(c10Params{DynamicWindow: [2]int{1 + rng.Intn(t), t}}), TimeoutS: 60})
+			}
 			return out
 		},
 		Run: func(sc drv.Scenario) drv.Result {
@@ -604,6 +727,13 @@ func init() {
 			return c10RunSmall(sc, &p)
 		},
 		OnDeath: func(sc drv.Scenario, out drv.ChildOutcome) drv.Result {
+			var p c10Params
+			_ = json.Unmarshal(sc.Params, &p)
+			if p.Hold == "stall" && strings.Contains(out.Stderr, "cant find self in cluster") {
+				// the documented fail-stop of a member that finds itself dropped from the group: it never keeps a stale number
+				return drv.Result{Verdict: drv.Held, Checks: 1, Nontrivial: true, TraceHash: drv.Hash("cb-stall", string(sc.Params)), Events: map[string]int{"fail_stop": 1},
+					Sample: map[string]any{"kind": "couchbase", "hold": "stall", "outcome": "dropped member stopped itself: " + drv.PanicLine(out.Stderr)}}
+			}
 			if drv.IsLibraryPanic(out.Stderr) {
 				return drv.Result{Verdict: drv.Violated, Clause: "crash", FindingKey: "C10/process-death", Detail: "membership code killed the process: " + drv.PanicLine(out.Stderr), Witness: out.Stderr}
 			}
